@@ -6,6 +6,7 @@ T=$1; N=${2:-50}; S=${3:-7}; shift 3 || true
 PKG=${PKG:-raft}
 D=/verif/build/run/dev-$T
 mkdir -p $D/fails
+python3 /verif/vbuild.py $PKG >/dev/null || exit 2
 cd $D
 rm -rf out.jsonl cur.json fails/* testdata
 VERIF_OUT=$D/out.jsonl VERIF_CUR=$D/cur.json VERIF_FAILDIR=$D/fails timeout ${TMO:-300} /verif/build/bin/$PKG.test -test.run "^$T\$" -rapid.checks=$N -rapid.seed=$S -test.timeout ${TMO:-300}s "$@" 2>&1 | tail -${TAIL:-40}
